@@ -65,7 +65,7 @@ def stateJson (st : State) : Json :=
     ("lens", listJ natJ st.lens),
     ("nb", listJ xrToJson st.nb),
     ("b", listJ xrToJson st.b),
-    ("is_prefix", listJ (listJ boolJ) st.isPrefix)]
+    ("is_prefix", listJ (fun (row : List Bool) => strJ (String.ofList (row.map (fun b => if b then '1' else '0')))) st.isPrefix)]
 
 def stepJson (V width : Nat) (carried : State) (o : StepOut) : Json :=
   let K := min width (o.cand.length)
@@ -113,20 +113,14 @@ def massTable (V : Nat) (frames : List PdtVerif.Ctc.Frame) : List (List Nat × R
 
 def prefJ (p : List Nat) : Json := listJ natJ p
 
-/-- case: {fix, V, width, len, frames:[{ext,nonext,blank,sel?}], init?: state,
-          ext_table?: [[[prefix,[row]]..] per frame], spec: bool}. -/
-def c05Run : Handler := fun c => do
-  let fix ← getBool c "fix"
-  let V ← getNat c "V"
-  let width ← getNat c "width"
+/-- One batch element. common: {fix, V, width, spec?}; element: {len, frames:[{ext,nonext,blank,sel?}],
+init?: state, ext_table?: per frame [[prefix,[row]]..], keeps?: per frame [prefix..]}. -/
+def c05Elem (fix : Bool) (V width : Nat) (wantSpec : Bool) (c : Json) : Except String Json := do
   let len ← getNat c "len"
   let frames ← getList parseFrame c "frames"
   let st0 ← match fieldOpt c "init" with
     | none => pure initState
     | some j => parseState j
-  let wantSpec := match fieldOpt c "spec" with
-    | some (.bool b) => b
-    | _ => true
   let steps := loopStates fix V width len 0 st0 frames
   let final := match steps.getLast? with
     | some (s, _) => s
@@ -154,34 +148,48 @@ def c05Run : Handler := fun c => do
     let tok ← f.nonext.mapM xrRat
     let bl ← xrRat f.blank
     pure (mkFrame V tok bl tab))
-  -- map-based recursion pruned exactly like the model: survivors = prefixes of the slots with finite total
+  -- survivors per frame: given by the harness (read off the implementation's trace), else
+  -- the prefixes of the model's slots with finite total
   let validPrefixes := fun (st : State) =>
     ((List.range st.nb.length).filter (fun k => (getX st.nb k + getX st.b k).isFin)).map
       (fun k => (st.y.getD k []).take (getN st.lens k))
-  let keeps := (steps.take len).map (fun (s, _) => validPrefixes s)
-  -- run, recording per frame: IsTopK of the keep, and whether anything was pruned
+  let keeps ← match fieldOpt c "keeps" with
+    | none => pure ((steps.take len).map (fun (s, _) => validPrefixes s))
+    | some j => jsonToList (jsonToList (jsonToList jsonToNat)) j
   let rec go : List PdtVerif.Ctc.Frame → List (List (List Nat)) → PdtVerif.Ctc.Beam →
-      List (Bool × Bool × Nat) → PdtVerif.Ctc.Beam × List (Bool × Bool × Nat)
+      List (Bool × Bool × Nat × Nat) → PdtVerif.Ctc.Beam × List (Bool × Bool × Nat × Nat)
     | f :: fs, k :: ks, bm, acc =>
       let cs := (PdtVerif.Ctc.cands V bm).eraseDups
       let ok := PdtVerif.Ctc.isTopKB V f width bm k
       let pruned := cs.any (fun p => !k.contains p)
-      go fs ks (PdtVerif.Ctc.beamStep V f k bm) (acc ++ [(ok, pruned, cs.length)])
+      go fs ks (PdtVerif.Ctc.beamStep V f k bm) (acc ++ [(ok, pruned, cs.length, (k.filter (fun p => cs.contains p)).eraseDups.length)])
     | _, _, bm, acc => (bm, acc)
   let (beam, info) := go specFrames keeps PdtVerif.Ctc.beamInit []
   let table := massTable V specFrames
-  -- cross-check glue against the definition on up to two prefixes
+  -- cross-check the glue against the definitions on the first entries
   let chk := (table.take 2).all (fun (p, m) => PdtVerif.Ctc.mass V specFrames p == m)
   if !chk then throw "internal: massTable disagrees with Ctc.mass"
   let ex := PdtVerif.Ctc.exact V specFrames
   let chk2 := (table.take 3).all (fun (p, m) => (ex p).1 + (ex p).2 == m)
-  if !chk2 then throw "internal: forward variables disagree with alignment enumeration (theorem C05_exact_eq_mass)"
+  if !chk2 then throw "internal: forward variables disagree with alignment enumeration (theorem exact_eq_mass)"
   let specJ := objJ [
     ("beam", listJ (fun (e : List Nat × (Rat × Rat)) =>
         objJ [("p", prefJ e.1), ("nb", ratToJson e.2.1), ("b", ratToJson e.2.2)]) beam),
-    ("frames", listJ (fun (x : Bool × Bool × Nat) =>
-        objJ [("topk_ok", boolJ x.1), ("pruned", boolJ x.2.1), ("ncands", natJ x.2.2)]) info),
+    ("frames", listJ (fun (x : Bool × Bool × Nat × Nat) =>
+        objJ [("topk_ok", boolJ x.1), ("pruned", boolJ x.2.1), ("ncands", natJ x.2.2.1),
+              ("nkeep", natJ x.2.2.2)]) info),
     ("mass", listJ (fun (e : List Nat × Rat) => objJ [("p", prefJ e.1), ("m", ratToJson e.2)]) table)]
   return objJ [("model", modelJ), ("spec", specJ)]
 
-def main : IO Unit := Proto.run [("c05.run", c05Run)]
+/-- case: {fix, V, width, spec?, elements: [element..]} → {"elements": [{model, spec}..]}. -/
+def c05Case : Handler := fun c => do
+  let fix ← getBool c "fix"
+  let V ← getNat c "V"
+  let width ← getNat c "width"
+  let wantSpec := match fieldOpt c "spec" with
+    | some (.bool b) => b
+    | _ => true
+  let els ← getList (fun e => c05Elem fix V width wantSpec e) c "elements"
+  return objJ [("elements", Json.arr els.toArray)]
+
+def main : IO Unit := Proto.run [("c05.case", c05Case)]
